@@ -26,6 +26,8 @@ inductive Err
   | outOfFuel    -- the model's own recursion bound was hit (never, see `Lemmas/VersionCmp.lean`)
   deriving DecidableEq, Repr
 
+deriving instance DecidableEq for Except
+
 def Err.name : Err → String
   | .malformed => "Malformed" | .unsortable => "Unsortable" | .indexError => "IndexError" | .outOfFuel => "OutOfFuel"
 
